@@ -32,7 +32,8 @@ SYMNOTE = ("Trusted: the primitive table of the symbolic evaluator (pst/core/pri
 CHECKS.update({
     "C01": (True, "symbolic abstract interpretation to normal forms (cost-matrix blocks, tiling for all sizes) + CFG/def-use "
                   "site rules on the threshold search",
-            CLAUSE + "Decides BN-COST, BN-TILE, BN-FILTER/WARN, BN-THRESH, BN-PERFECT, BN-BISECT, BN-ORDER, BN-EMPTY: the "
+            CLAUSE + "Decides BN-COST, BN-TILE (slice stores, paired index-array diagonal stores, pre-filled base with explicit "
+            "corner), BN-FILTER/WARN, BN-THRESH, BN-PERFECT, BN-BISECT, BN-ORDER, BN-EMPTY: the "
             "augmented matrix is the statement's cost model for every size, and the search's structural invariants hold. "
             "Declines: optimality of binary search + Hopcroft-Karp, float ties.",
             SYMNOTE + "Hopcroft-Karp returns a maximum matching (dict with both directions).", "DESIGN.md §4 C01"),
@@ -44,7 +45,9 @@ CHECKS.update({
                   "distance, plus role-swap comparison of normal forms",
             CLAUSE + "Proves, for all finite non-empty inputs of any size in exact arithmetic: degree-1 homogeneity "
             "(MI-DEG), invariance under diagonal translation (MI-SHIFT), role-swap symmetry of the matrix construction "
-            "(MI-SWAP). Declines: d(X,X)=0, triangle inequality, diagonal points, closed forms vs the empty diagram, "
+            "(MI-SWAP); decides MI-DIAG (the blocks of the augmented matrix tile it as the cost model requires, "
+            "diagonal-to-diagonal corner 0 — necessary for insensitivity to diagonal points and the closed forms against the "
+            "empty diagram). Declines: d(X,X)=0, triangle inequality, diagonal points, closed forms vs the empty diagram, "
             "bottleneck<=Wasserstein (need solver optimality).",
             SYMNOTE + "Index-valued primitives (assignment solver, matching, sort/unique) are scale- and shift-free on "
             "homogeneous input.", "DESIGN.md §3.4, §3.5, §4 C07"),
@@ -53,12 +56,16 @@ CHECKS.update({
 CHECKS.update({
     "C06": (True, "symbolic evaluation with the matching flag left symbolic (non-interference), provenance of row entries, "
                   "identity testing of derived index expressions",
-            CLAUSE + "Decides MT-NONINT, MT-COST, MT-MINUS1, MT-DROP, MT-COVER for both functions. Declines: that max/sum of "
+            CLAUSE + "Decides MT-NONINT, MT-COST, MT-MINUS1, MT-DROP, MT-COVER, MT-PROV for both functions, whether the rows are "
+            "appended one by one or built as a whole table (arange / where / column_stack / masks / stacked slices: the "
+            "obligations are read off the element expression of every part, the listing condition is the union of the parts' "
+            "row domains). Declines: that max/sum of "
             "the row costs equals the distance (solver optimality) and which optimal matching is returned.",
             SYMNOTE, "DESIGN.md §4 C06"),
     "C14": (True, "symbolic evaluation of the kernel double loop to a ΣΣ normal form; translation-weight and units typing; "
                   "sign analysis of the radicand",
-            CLAUSE + "Decides HT-KER, HT-DIST, HT-SWAP, HT-UNITS, HT-REAL and proves HT-SHIFT (translation invariance for "
+            CLAUSE + "Decides HT-KER (incl. inputs with exact and near ties: conditions that select rows are exercised on both "
+            "sides), HT-DIST, HT-SWAP, HT-UNITS, HT-REAL, HT-STATE and proves HT-SHIFT (row-selecting conditions are typed too) (translation invariance for "
             "every input, exact arithmetic). Declines: exact zeros in floating point, triangle inequality, stability.",
             SYMNOTE + "sigma > 0.", "DESIGN.md §4 C14"),
 })
@@ -67,7 +74,8 @@ CHECKS.update({
     "C15": (True, "symbolic evaluation with an opaque loop-variant direction; homogeneity-degree and symbolic "
                   "translation-weight typing; normal-form comparison of the projected vectors; loop-summary rules",
             CLAUSE + "Proves SW-DEG (linear scaling) and SW-SHIFT (diagonal translation invariance incl. negative "
-            "coordinates) for every input in exact arithmetic; decides SW-PROJ, SW-AUG, SW-AVG. Declines: <=2*W1, triangle "
+            "coordinates) for every input in exact arithmetic; decides SW-PROJ, SW-AUG, SW-AVG, SW-DTYPE (no float store into an array typed by the caller's "
+            "data). Declines: <=2*W1, triangle "
             "inequality, diagonal-point insensitivity, quadrature error in M.",
             SYMNOTE + "float32 rounding of the direction vector ignored within 1e-6.", "DESIGN.md §4 C15"),
     "C16": (True, "symbolic evaluation to the entropy normal form under every flag configuration; degree/weight/"
@@ -91,7 +99,9 @@ CHECKS.update({
     "C13": (True, "literal-table validation (Legendre roots/weights; if-chain or table-driven rules), guard cut-off rule over "
                   "the helper-inlined AST + reaching definitions, units typing and normal forms from partial symbolic "
                   "evaluation, dispatch decided on the observed (stubbed) calls of the closed forms and their path conditions",
-            CLAUSE + "Decides KN-GL, KN-REGIME, KN-GUARD, KN-AFF, KN-UNITS, KN-NORM, KN-SBVN, KN-UNI, KN-DISPATCH. Declines: "
+            CLAUSE + "Decides KN-GL, KN-REGIME, KN-GUARD, KN-AFF, KN-UNITS, KN-NORM, KN-SBVN, KN-UNI, KN-DISPATCH, KN-STALE (reaching definitions: nothing computed from the un-reflected coordinate "
+            "is used after the reflection for negative correlation, whether the reflection re-binds the name or introduces a "
+            "new one), KN-PURE. Declines: "
             "monotonicity, range [0,1], tail limits and 1e-7 agreement with a reference CDF for all arguments.",
             SYMNOTE + "Genz's bvnl constants are the specification of the guards and regimes.", "DESIGN.md §4 C13"),
 })
@@ -100,7 +110,8 @@ CHECKS.update({
     "C17": (True, "site rules over resolved calls on the helper-inlined view (coercion, same-mask restriction on both axes, "
                   "pair enumeration and symmetrisation with a write-set argument for 'never symmetrised', type ladder) "
                   "+ call-graph reachability of random generators",
-            CLAUSE + "Decides GH-COERCE, GH-LCC, GH-SYM, GH-INT, GH-DET. Declines: that the bounds bracket the distance (C05) "
+            CLAUSE + "Decides GH-COERCE, GH-LCC, GH-SYM (incl. a normal form of triangle index pairs — triu/tril_indices(_from), "
+            "[::-1], .T — deciding position-by-position transposition), GH-INT, GH-DET. Declines: that the bounds bracket the distance (C05) "
             "and relabelling invariance of the bounds.",
             "Trusted: scipy shortest_path / connected_components semantics; the accepted restriction idioms are DG[m][:, m], "
             "DG[np.ix_(m, m)], DG[m, :][:, m] (anything else is reported as unmodelled, exit 2).", "DESIGN.md §4 C17"),
@@ -175,14 +186,18 @@ CHECKS.update({
 })
 
 CHECKS.update({
-    "C08": (True, "delegation wiring decided by symbolic execution of the transformer with the landscape constructor "
-                  "observed; site rules with resolved calls on the helper-inlined view with local expansion: sibling "
-                  "agreement of grid reconstructions, nearest-node selection pattern",
-            "NARROW clause-level claim — the weakest of the suite. The quantitative statement (sampled values within half a "
-            "grid step of the true landscape, exact on-grid, interpolation exact) quantifies over runtime values and is NOT "
-            "decided. Decided: GL-FWD (transformer forwards its own parameters and returns .values / flattened), GL-GRID "
-            "(every site rebuilding a landscape's grid uses linspace(start, stop, num_steps) with the default end-point), "
-            "GL-SNAP (nearest node per coordinate, same axis), GL-DV (descending deaths, hom_deg 0 only), GL-INF.",
+    "C08": (True, "symbolic abstract interpretation of compute_landscape (nearest-node reductions, value->position tables, "
+                  "per-node sample lists, induction-variable closed forms of loop counters) with the derived per-bar sample "
+                  "sites compared with the tent function and the derived packing compared with 'k-th largest per node'; "
+                  "delegation wiring decided by symbolic execution of the transformer with the landscape constructor "
+                  "observed; site rules with resolved calls on the helper-inlined view: sibling agreement of grid "
+                  "reconstructions, nearest-node selection pattern, None-vs-truthiness defaults",
+            CLAUSE + "Decides GL-RAMP (every bar puts exactly one sample step*min(k-NB, ND-k) on every node k strictly between "
+            "the nearest nodes NB, ND of its end-points, and nothing else), GL-PACK (row k of `values` is the (k+1)-st largest "
+            "sample over each node, 0 where there are fewer, depth = largest count), GL-INDEX, GL-SNAP (nearest node per "
+            "coordinate, same axis), GL-FWD, GL-GRID, GL-DV, GL-INF, GL-DEFAULT. Together GL-SNAP+GL-RAMP+GL-PACK are the code's "
+            "side of the half-step bound; the bound itself (an inequality over real values), exactness on-grid and the "
+            "exact->grid interpolation are NOT decided.",
             "Trusted: np.linspace / np.interp semantics. Rules see through private helpers, temporaries and renaming; a "
             "restructuring beyond that yields refutations only for the listed deviations, otherwise exit 2.",
             "DESIGN.md §4 C08"),
